@@ -18,13 +18,13 @@ import (
 // exactly like the twin.
 func init() {
 	simkit.Register(&simkit.Prop{
-		ID:   "C01",
-		Desc: "crash anywhere in block commit / recovery; reopened ledger equals uncrashed twin",
-		Rule: "a run = chain of 3..40 solo blocks with 0..6 ONT/ONG transfers each, committed on an uncrashed twin and on a victim whose simulated disk fail-stops at a tape-chosen mutating call (optionally torn) inside commit or inside recovery, plus clean restarts; non-trivial = at least one crash landed inside a commit or recovery AND at least one block was applied after the reopen; distinct = distinct event-trace hash",
-		Real: []string{"core/store/ledgerstore (ledger, block/state/event/cross-chain stores, recoverStore)", "core/store/leveldbstore + goleveldb on SimDisk", "merkle (compact tree + file hash store on tmpfs)", "smartcontract + NeoVM + native ONT/ONG", "core/genesis", "core/types", "core/signature"},
-		Stub: []string{"solo block producer (harness builds/signs blocks like consensus/solo)", "disk: in-memory goleveldb storage with fail-stop/torn-write injection", "wasm JIT (stub archive)"},
+		ID:          "C01",
+		Desc:        "crash anywhere in block commit / recovery; reopened ledger equals uncrashed twin",
+		Rule:        "a run = chain of 3..40 solo blocks with 0..6 ONT/ONG transfers each, committed on an uncrashed twin and on a victim whose simulated disk fail-stops at a tape-chosen mutating call (optionally torn) inside commit or inside recovery, plus clean restarts; non-trivial = at least one crash landed inside a commit or recovery AND at least one block was applied after the reopen; distinct = distinct event-trace hash",
+		Real:        []string{"core/store/ledgerstore (ledger, block/state/event/cross-chain stores, recoverStore)", "core/store/leveldbstore + goleveldb on SimDisk", "merkle (compact tree + file hash store on tmpfs)", "smartcontract + NeoVM + native ONT/ONG", "core/genesis", "core/types", "core/signature"},
+		Stub:        []string{"solo block producer (harness builds/signs blocks like consensus/solo)", "disk: in-memory goleveldb storage with fail-stop/torn-write injection", "wasm JIT (stub archive)"},
 		Assumptions: []string{"process-death model: completed writes survive, the write in flight may be torn, unsynced data is not lost", "the merkle hash file is a real tmpfs file; a crash before/inside its append is emulated by truncating the tail written for the block in flight"},
-		Run: runC01,
+		Run:         runC01,
 	})
 }
 
